@@ -236,7 +236,56 @@ func derefAll(v any) any {
 	return obs.NormValue(rv)
 }
 
+// c11OwnLangMap: a language map supplied by the application (documented use) may mention a parameter more than once and may put
+// {{value}} next to a parameter: every occurrence is resolved.
+func c11OwnLangMap(c *core.Ctx) bool {
+	own := zconst.LangMap{}
+	for t, codes := range en.Map {
+		own[t] = map[zconst.ZogIssueCode]string{}
+		for code, msg := range codes {
+			own[t][code] = msg + " :: " + msg
+		}
+	}
+	fmtr := z.WithIssueFormatter(conf.NewDefaultFormatter(own))
+	var s string
+	var n int
+	var l []string
+	type probe struct {
+		name string
+		run  func() z.ZogIssueList
+		want string
+	}
+	tw := func(m string) string { return m + " :: " + m }
+	probes := []probe{
+		{"String.Min(5)", func() z.ZogIssueList { return z.String().Min(5).Parse("ab", &s, fmtr) }, tw("string must contain at least 5 character(s)")},
+		{"Int.GT(3)", func() z.ZogIssueList { return z.Int().GT(3).Parse(1, &n, fmtr) }, tw("number must be greater than 3")},
+		{"String.HasPrefix(ab)", func() z.ZogIssueList { return z.String().HasPrefix("ab").Parse("xy", &s, fmtr) }, tw("string must start with ab")},
+		{"Int.OneOf", func() z.ZogIssueList { return z.Int().OneOf([]int{1, 2}).Parse(5, &n, fmtr) }, tw("number must be one of [1 2]")},
+		{"Slice.Len(2)", func() z.ZogIssueList {
+			m := z.Slice(z.String()).Len(2).Parse([]any{"a"}, &l, fmtr)
+			return m["$root"]
+		}, tw("slice must contain exactly 2 items")},
+	}
+	for _, p := range probes {
+		is := p.run()
+		c.Eval(1)
+		if len(is) != 1 || is[0].Message != p.want || strings.Contains(is[0].Message, "{{") {
+			got := fmt.Sprintf("%d issues", len(is))
+			if len(is) == 1 {
+				got = is[0].Message
+			}
+			c.Violation("issue-not-fully-described|own-language-map", map[string]any{"test": p.name, "language_map": "every shipped English text twice, joined by ' :: '", "message": got, "want": p.want})
+			return false
+		}
+	}
+	c.Count("own_language_map_probes", len(probes))
+	return true
+}
+
 func (c11) RunCase(c *core.Ctx) {
+	if c.Case == 3 && !c11OwnLangMap(c) {
+		return
+	}
 	if c.Case >= len(c11Cells) {
 		c11Precedence(c)
 		return
